@@ -123,7 +123,80 @@ func (f Fault) expr() *Expr {
 var contexts = []string{"top", "closure", "seqMap", "seqAccept", "parMap", "parAccept", "behindParallel", "mergeOperand", "mergeComparator", "multiUseConsumer",
 	"multiUseSource", "orderKey", "orderLess", "lazyResult", "reduce", "mapValue", "switchCase", "nestedTry"}
 
+// contexts in which the fault is raised by the closure of a list stage of any kind
+// (Case.Stage) instead of a map closure
+var stageContexts = []string{"seqStage", "mergeOperandStage", "mergeReceiverStage", "mergeOperandStageFirst", "multiUseSourceStage", "multiUseConsumerStage",
+	"behindParallelStage", "lazyResultStage"}
+
+var stageKinds = []string{"map", "accept", "number", "iir", "iirInitial", "iirCombine", "combine", "combine3", "combineN", "compact", "cross", "fsm"}
+
 var e = Var("e")
+
+// then evaluates f and returns x (the items of a list literal are let-positions).
+func then(f, x *Expr) *Expr { return Index(List(f, x), Int(1)) }
+
+// stageList: a lazy list over src whose stage closure evaluates the fault when it meets
+// the element k; the closure stays type-correct if the fault source does not fail.
+func stageList(kind string, src *Expr, k int, f *Expr) *Expr {
+	hit := func(v, x *Expr) *Expr { return If(Bin("=", v, Int(k)), then(f, x), x) }
+	switch kind {
+	case "map":
+		return MCall(src, "map", lam1(hit(e, e)))
+	case "accept":
+		return MCall(src, "accept", lam1(hit(e, Bool(true))))
+	case "number":
+		return MCall(src, "number", Lam([]string{"i", "e"}, hit(e, e)))
+	case "iir":
+		return MCall(src, "iir", lam1(e), Lam([]string{"e", "l"}, hit(e, e)))
+	case "iirInitial":
+		return MCall(src, "iir", lam1(then(f, e)), Lam([]string{"e", "l"}, e))
+	case "iirCombine":
+		return MCall(src, "iirCombine", lam1(e), Lam([]string{"a", "e", "l"}, hit(e, e)))
+	case "combine":
+		return MCall(src, "combine", Lam([]string{"a", "e"}, hit(e, e)))
+	case "combine3":
+		return MCall(src, "combine3", Lam([]string{"a", "e", "c"}, hit(e, e)))
+	case "combineN":
+		return MCall(src, "combineN", Int(2), Lam([]string{"l"}, hit(Index(Var("l"), Int(0)), Index(Var("l"), Int(0)))))
+	case "compact":
+		return MCall(src, "compact", Lam([]string{"a", "e"}, hit(e, Bool(false))))
+	case "cross":
+		return MCall(src, "cross", List(Int(1), Int(2)), Lam([]string{"e", "b"}, hit(e, e)))
+	case "fsm":
+		return MCall(src, "fsm", Lam([]string{"s", "e"}, hit(e, Var("s"))))
+	}
+	panic("stage " + kind)
+}
+
+var keepLast = Lam([]string{"a", "b"}, Var("b"))
+var lessAB = Lam([]string{"a", "b"}, Bin("<", Var("a"), Var("b")))
+
+func inStageContext(ctx, stage string, f *Expr) *Expr {
+	six := SCall("numbers", Int(6))
+	switch ctx {
+	case "seqStage":
+		return MCall(stageList(stage, six, 2, f), "reduce", keepLast)
+	case "mergeOperandStage":
+		return MCall(MCall(six, "merge", stageList(stage, six, 2, f), lessAB), "reduce", keepLast)
+	case "mergeReceiverStage":
+		return MCall(MCall(stageList(stage, six, 2, f), "merge", six, lessAB), "reduce", keepLast)
+	case "mergeOperandStageFirst":
+		// the consumer stops at once, the operands go on in goroutines of their own
+		return MCall(MCall(six, "merge", stageList(stage, six, 3, f), lessAB), "first")
+	case "multiUseSourceStage":
+		return MCall(stageList(stage, six, 2, f), "multiUse", Map([]string{"a", "b"}, []*Expr{Lam([]string{"l"}, MCall(Var("l"), "reduce", keepLast)),
+			Lam([]string{"l"}, MCall(MCall(Var("l"), "top", Int(1)), "size"))}))
+	case "multiUseConsumerStage":
+		return MCall(six, "multiUse", Map([]string{"a", "b"}, []*Expr{Lam([]string{"l"}, MCall(stageList(stage, Var("l"), 2, f), "reduce", keepLast)),
+			Lam([]string{"l"}, MCall(Var("l"), "size"))}))
+	case "behindParallelStage":
+		// the stage behind a parallel map runs on the collector goroutine
+		return MCall(stageList(stage, MCall(SCall("numbers", Int(40)), "map", lam1(SCall("slowTo", e, Int(14)))), 20, f), "reduce", keepLast)
+	case "lazyResultStage":
+		return stageList(stage, SCall("numbers", Int(5)), 2, f)
+	}
+	panic("stage context " + ctx)
+}
 
 func lam1(body *Expr) *Expr { return Lam([]string{"e"}, body) }
 
@@ -184,13 +257,19 @@ func inContext(ctx string, f *Expr) *Expr {
 type Case struct {
 	Fault   Fault  `json:"fault"`
 	Context string `json:"context"`
+	Stage   string `json:"stage,omitempty"` // the kind of list stage whose closure raises the fault (stage contexts)
 	Try     bool   `json:"try"`
 	Procs   int    `json:"gomaxprocs"`
 	Opt     bool   `json:"optimizer"`
 }
 
 func (c Case) expr() *Expr {
-	x := inContext(c.Context, c.Fault.expr())
+	var x *Expr
+	if c.Stage != "" {
+		x = inStageContext(c.Context, c.Stage, c.Fault.expr())
+	} else {
+		x = inContext(c.Context, c.Fault.expr())
+	}
 	if c.Try {
 		x = Try(x, Int(77))
 	}
@@ -206,7 +285,8 @@ type info struct {
 // isHostPanicInLazy: a panic of the host's own function boom() inside a lazily returned
 // stage that the host itself forces after Eval returned is outside "during evaluation".
 func (c Case) hostPanicOutsideEval() bool {
-	return c.Fault.Kind == "boom" && c.Context == "lazyResult"
+	boom := c.Fault.Kind == "boom" || (c.Fault.Kind == "static" && c.Fault.Op == "boom")
+	return boom && (c.Context == "lazyResult" || c.Context == "lazyResultStage")
 }
 
 func check(c Case) (string, info) {
@@ -268,7 +348,7 @@ func check(c Case) (string, info) {
 		got = progs.ImplRun(g, pc)
 	}()
 	inf.offCaller = state.OffCaller(me)
-	where := fmt.Sprintf("%s (fault %s in context %s, GOMAXPROCS=%d)", pc.Text, Render(c.Fault.expr()), c.Context, c.Procs)
+	where := fmt.Sprintf("%s (fault %s in context %s%s, GOMAXPROCS=%d)", pc.Text, Render(c.Fault.expr()), c.Context, c.Stage, c.Procs)
 	if pan != nil {
 		return fmt.Sprintf("%s: the evaluation call panics: %v", where, pan), inf
 	}
@@ -349,6 +429,9 @@ func genFault(t *rapid.T) Fault {
 
 func record(c Case, inf info) {
 	cls := []string{"context_" + c.Context, "fault_" + c.Fault.Kind}
+	if c.Stage != "" {
+		cls = append(cls, "stage_"+c.Stage)
+	}
 	if c.Try {
 		cls = append(cls, "wrapped_in_try")
 	}
@@ -372,9 +455,14 @@ func TestPropC05(t *testing.T) {
 	rapid.Check(t, func(t *rapid.T) {
 		c := Case{Fault: genFault(t), Context: contexts[rapid.IntRange(0, len(contexts)-1).Draw(t, "context")], Try: rapid.Bool().Draw(t, "try"),
 			Procs: rapid.SampledFrom([]int{1, 2, 4, 16}).Draw(t, "procs"), Opt: rapid.Bool().Draw(t, "opt")}
+		if rapid.IntRange(0, 2).Draw(t, "stageContext") == 0 {
+			c.Context = stageContexts[rapid.IntRange(0, len(stageContexts)-1).Draw(t, "stageCtx")]
+			c.Stage = stageKinds[rapid.IntRange(0, len(stageKinds)-1).Draw(t, "stage")]
+		}
 		if c.Fault.Kind == "recursion" {
 			// the guarded recursion costs ~10 000 frames: keep it out of the slow contexts
 			c.Context = []string{"top", "closure", "mapValue", "nestedTry"}[rapid.IntRange(0, 3).Draw(t, "recCtx")]
+			c.Stage = ""
 		}
 		evid.Pending(prop, "c05", c)
 		msg, inf := check(c)
